@@ -905,7 +905,7 @@ pub fn cmd_l2a(args: &crate::Args) -> i32 {
         }
     }
     // dead probes
-    if exit == 0 && (by_site[2] == 0 || by_site[3] == 0 || by_site[0] == 0) {
+    if exit == 0 && thorough && (by_site[2] == 0 || by_site[3] == 0 || by_site[0] == 0) {
         println!("HARNESS-ERROR dead probes: no context switch inside Vocoder::synthesize / MlpgAdjust::create / at op boundaries");
         exit = 2;
     }
